@@ -58,7 +58,11 @@ STEP_CASES = [
     ("step_osc_0", "state OscString, payload <=5 bytes, no completed field, any byte"),
     ("step_osc_2", "state OscString, payload <=5 bytes, 2 completed fields, any byte"),
     ("step_sos", "state SosPmApcString, any byte"),
-    ("step_utf8", "lead byte + up to 2 more bytes from Ground, then any byte"),
+    ("step_utf8_0", "lead byte from Ground, then any byte"),
+    ("step_utf8_1", "lead byte + 1 arbitrary byte from Ground, then any byte"),
+    ("step_utf8_2", "lead byte + 2 arbitrary bytes from Ground, then any byte"),
+]
+STEP_LIMITS = [
     ("step_csi_param_31", "state CsiParam with 31 parameter values (limit - 1), any structure, any byte"),
     ("step_csi_param_32", "state CsiParam with 32 parameter values (at the limit), any byte"),
     ("step_csi_intermediate_32", "state CsiIntermediate with 32 parameter values, any byte"),
@@ -75,17 +79,20 @@ def jobs_c02(tier, seed):
     jobs = [
         J("c02::transition_table", features=f, timeout_s=300, bound="all 14 table-driven parser states x all 256 bytes (complete)"),
         J("c02::run_from_new_1", features=f, timeout_s=300, bound="every 1-byte stream from Parser::new()"),
-        J("c02::run_from_new_2", features=f, timeout_s=600, bound="every 2-byte stream from Parser::new()"),
-        J("c02::run_from_new_3", features=f, timeout_s=900, bound="every 3-byte stream from Parser::new()"),
+        J("c02::run_from_new_2", features=f, timeout_s=900, bound="every 2-byte stream from Parser::new()"),
     ]
     for n, b in STEP_CASES:
-        big = n.endswith(("_31", "_32", "_15", "_16", "_16_extra"))
-        jobs.append(J(f"c02::{n}", features=f, timeout_s=3600 if big else 1200, mem_gb=20 if big else 12, all_covers=False, min_covers=1,
+        jobs.append(J(f"c02::{n}", features=f, timeout_s=1800, mem_gb=20, expect_gb=5, all_covers=False, min_covers=1,
+                      bound="one step from an arbitrary valid parser state: " + b))
+    # the documented limits: two of the eight shapes per quick run (rotated by the seed), all in thorough
+    lim = STEP_LIMITS if tier == "thorough" else [STEP_LIMITS[(1 + seed) % 8], STEP_LIMITS[(6 + seed) % 8]]
+    for n, b in lim:
+        jobs.append(J(f"c02::{n}", features=f, timeout_s=3600, mem_gb=30, expect_gb=16, all_covers=False, min_covers=1,
                       bound="one step from an arbitrary valid parser state: " + b))
     if tier == "thorough":
         jobs += [
-            J("c02::run_from_new_4", features=f, timeout_s=3600, mem_gb=20, bound="every 4-byte stream from Parser::new()"),
-            J("c02::run_from_new_5", features=f, timeout_s=7200, mem_gb=24, optional=True, bound="every 5-byte stream from Parser::new()"),
+            J("c02::run_from_new_3", features=f, timeout_s=3600, mem_gb=30, expect_gb=20, bound="every 3-byte stream from Parser::new()"),
+            J("c02::run_from_new_4", features=f, timeout_s=2 * 3600, mem_gb=40, expect_gb=30, optional=True, bound="every 4-byte stream from Parser::new()"),
         ]
     return jobs
 
@@ -291,21 +298,22 @@ C20_CONFIGS = [
 
 def jobs_c20(tier, seed):
     jobs = []
-    common = ["c02::run_from_new_2", "c02::run_from_new_3", "c02::step_ground", "c02::step_escape", "c02::step_csi_param_2",
-              "c02::step_dcs_passthrough", "c02::step_osc_0", "c02::step_osc_2", "c02::step_osc_16"]
+    common = ["c02::run_from_new_2", "c02::step_ground", "c02::step_escape", "c02::step_csi_param_2",
+              "c02::step_dcs_passthrough", "c02::step_osc_0", "c02::step_osc_2"]
     boundary = ["c20::osc_boundary_1023", "c20::osc_boundary_1024", "c20::osc_boundary_1024_cut"]
     if tier == "thorough":
-        common += ["c02::transition_table", "c02::run_from_new_4", "c02::step_csi_param_32", "c02::step_csi_intermediate", "c02::step_dcs_param", "c02::step_osc_15", "c02::step_sos", "c02::step_csi_entry"]
+        common += ["c02::transition_table", "c02::run_from_new_3", "c02::step_osc_16", "c02::step_csi_param_32", "c02::step_csi_intermediate", "c02::step_dcs_param", "c02::step_osc_15", "c02::step_sos", "c02::step_csi_entry"]
         boundary += ["c20::osc_boundary_1022", "c20::osc_boundary_1023_cut"]
     for cfg, feats in C20_CONFIGS:
         f = ["c20", "seven_bit"] + feats
         for h in common:
-            j = J(h, crate="parse", features=f, timeout_s=1800 if "new_4" not in h else 3600, mem_gb=16, all_covers=False, min_covers=1,
+            heavy = h.endswith(("new_3", "_32", "_16"))
+            j = J(h, crate="parse", features=f, timeout_s=3600 if heavy else 1800, mem_gb=30 if heavy else 20, expect_gb=16 if heavy else 5, optional=heavy, all_covers=False, min_covers=1,
                   bound=f"[{cfg}] 7-bit input, same reference model as every other configuration: {h}")
             j.label = f"{cfg}:{h}"
             jobs.append(j)
         for h in boundary:
-            j = J(h, crate="parse", features=f, timeout_s=1800, mem_gb=16,
+            j = J(h, crate="parse", features=f, timeout_s=2400, mem_gb=20, expect_gb=6,
                   bound=f"[{cfg}] OSC payload at the fixed buffer's limit: two arbitrary 7-bit bytes, terminator, then a CSI sequence")
             j.label = f"{cfg}:{h}"
             jobs.append(j)
@@ -356,8 +364,10 @@ def jobs_c10(tier, seed):
     return [
         J("c10::palette_scan_lowest_minimum", features=f, stubbing=True, replay="none", timeout_s=1800, mem_gb=16,
           bound="K2: Palette::find_match with the distance function replaced by an ARBITRARY table: any query colour, any palette of 16 tagged entries incl. duplicates, any table (every weak order of the candidates) -> lowest index of minimal distance"),
-        J("c10::xterm_scan_lowest_minimum", features=f, stubbing=True, replay="none", timeout_s=3600, mem_gb=24,
-          bound="K2: find_xterm_match over the 240 fixed colours with an ARBITRARY distance table (u8 per candidate); every candidate checked against the reference xterm generator; all 240 examined; lowest index of minimal distance"),
+        J("c10::xterm_scan_lowest_minimum_4_levels" if tier == "quick" else "c10::xterm_scan_lowest_minimum", features=f, stubbing=True, replay="none", timeout_s=2 * 3600, mem_gb=24,
+          bound="K2: find_xterm_match over the 240 fixed colours with an ARBITRARY distance table ("
+                + ("at most 4 distinct values per table" if tier == "quick" else "any u8 per candidate")
+                + "); every candidate checked against the reference xterm generator; all 240 examined; lowest index of minimal distance"),
         J("c10::direct_conversions", features=f, timeout_s=1200,
           bound="K3: identities, 16-colour <-> indices 0..=15, palette look-ups, xterm_to_rgb == reference cube/grey generator: any colour, any index, any palette (complete)"),
         J("c10::xterm_to_ansi_goes_through_rgb", features=f, stubbing=True, replay="none", timeout_s=1800, mem_gb=16,
@@ -536,7 +546,7 @@ REGISTRY = {
         "jobs": jobs_c20,
         "level": "model_checking",
         "functions": ["anstyle_parse::Parser::advance and everything below it, built four times: features {utf8} (default), {core}, {core,utf8}, {} ", "ArrayVec-backed osc_raw (core) incl. the is_full early return", "AsciiParser::add (unreachable! shown unreachable on 7-bit input)"],
-        "bounds": {"quick": "per configuration: lock-step runs of <=3 arbitrary 7-bit bytes from Parser::new(); one-step refinement from arbitrary states Ground/Escape/CsiParam/DcsPassthrough/OscString; OSC payload at lengths 1023 and 1024 (concrete filler) followed by two arbitrary 7-bit bytes, BEL and a CSI sequence", "thorough": "more states, runs of 4 bytes, boundary lengths 1022..1024 with and without a completed field"},
+        "bounds": {"quick": "per configuration: lock-step runs of <=2 arbitrary 7-bit bytes from Parser::new(); one-step refinement from arbitrary states Ground/Escape/CsiParam/DcsPassthrough/OscString; OSC payload at lengths 1023 and 1024 (concrete filler) followed by two arbitrary 7-bit bytes, BEL and a CSI sequence", "thorough": "more states, runs of 3 bytes, the 32-parameter and 16-field limits, boundary lengths 1022..1024 with and without a completed field"},
         "outside": "OSC payloads of 1000..1100 bytes fed byte by byte from new() (the step lemma at the boundary lengths stands in for them); payload content other than the filler byte at the boundary (capacity logic does not read it)",
         "assumptions": ["equality across configurations follows by transitivity through the shared reference model vmodels::vt (fixed-buffer variant: payload truncated at 1024 bytes, separators arriving while full dropped)"],
     },
@@ -553,7 +563,7 @@ REGISTRY = {
         "post": post_c10,
         "level": "proof",
         "functions": ["anstyle_lossy::distance (MIR -> SMT-LIB, integers with explicit wrapping)", "anstyle_lossy::palette::Palette::{find_match,get,index,rgb_from_ansi,rgb_from_index}", "anstyle_lossy::{find_xterm_match,rgb_to_xterm,rgb_to_ansi,xterm_to_ansi,xterm_to_rgb,ansi_to_rgb,color_to_rgb,color_to_xterm,color_to_ansi}", "XTERM_COLORS table", "anstyle::RgbColor::{r,g,b} (read off the anstyle crate's MIR)"],
-        "bounds": {"quick": "no bound: K1 over all 2^48 colour pairs; K2 over every query colour, every (tagged) palette and every distance table; K3 over all colours/indices/palettes", "thorough": "same"},
+        "bounds": {"quick": "K1 over all 2^48 colour pairs (no bound); K2 over every query colour, every (tagged) 16-entry palette and every distance table; the 240-candidate scan over every table with <=4 distinct values; K3 over all colours/indices/palettes", "thorough": "the 240-candidate scan over every u8 table (no bound left)"},
         "outside": "K2 abstracts the metric to an arbitrary table, so it covers every metric; the composition K1+K2 => nearest-by-red-mean is an argument on paper (stated in DESIGN.md), not a solver query",
         "trusted": ["rustc nightly MIR printer", "mir2smt translator (validated on 1000 concrete pairs per run against the real function)", "z3 4.8.12 / cvc5 1.0 / z3 5.1.0", "Kani 0.68 stubbing", "CBMC 6.11 + CaDiCaL", "reference xterm generator vmodels::xterm"],
         "assumptions": ["STUB: anstyle_lossy::distance replaced by a table lookup that also asserts its first argument is the query colour and its second a legitimate candidate", "find_match/find_xterm_match use the palette only through distance(color, candidate) -- enforced by the stub's argument checks and call count"],
@@ -650,8 +660,8 @@ REGISTRY = {
             "utf8parse::Parser::advance",
         ],
         "bounds": {
-            "quick": "transition function complete (15x256); lock-step runs from Parser::new(): every stream of <=3 bytes over all 256 values",
-            "thorough": "as quick plus every stream of <=5 bytes; one-step refinement from an arbitrary valid parser state",
+            "quick": "transition function complete (14 states x 256 bytes); one-step refinement from an arbitrary valid state in 20 shapes (every state) plus 2 of the 8 limit shapes (31/32 parameters, 15/16 OSC fields; rotated by VERIF_SEED); lock-step runs from Parser::new() of <=2 bytes over all 256 values",
+            "thorough": "all 28 step shapes; runs of <=4 bytes (4 optional)",
         },
         "outside": "streams longer than the run bound that are not covered by the one-step lemma's invariant; OSC payloads longer than the model buffer",
         "assumptions": [
